@@ -290,6 +290,27 @@ def arm_return_values(fn, sw_bb=None):
 
 
 def specialized_paths(fn, args):
+    r = specialized_paths_ex(fn, args)
+    return None if r is None else [(rest, val) for rest, val, _ in r]
+
+
+def path_field_writes(fn, blocks, local=1, args=None):
+    """{field: value} of the direct field assignments to `local` made in the given blocks (one path), parameters substituted"""
+    P = prov.prov_of(fn)
+    params = {i + 1: a for i, a in enumerate(args)} if args else None
+    out = {}
+    for bb in blocks:
+        for si, s_ in enumerate(fn.blocks[bb]['s']):
+            if s_['k'] != 'assign' or s_['p']['l'] != local:
+                continue
+            pr = [e for e in s_['p'].get('proj', []) if isinstance(e, dict) and 'f' in e]
+            if len(pr) == 1:
+                v = P.rvalue(s_['rv'], bb, si)
+                out[pr[0]['f']] = prov.subst(v, params) if params else v
+    return out
+
+
+def specialized_paths_ex(fn, args):
     """acyclic paths of `fn` when called with the argument trees `args` (list, parameter 1 first): a switch whose scrutinee becomes
     a known enum variant / bool constant after substitution keeps only its matching edge.  Returns [(remaining conds, value of _0)]
     with parameters substituted, or None (loops / too many paths)."""
@@ -330,5 +351,5 @@ def specialized_paths(fn, args):
                 break
         if val is None:
             return None
-        out.append((rest, prov.subst(val, params)))
+        out.append((rest, prov.subst(val, params), list(p.blocks)))
     return out
